@@ -38,10 +38,19 @@ CheckReq(line, ev) ==
      /\ IF IsPreflight(cfg, req) /\ ~PreflightGranted(cfg, req, routable) THEN Bump(6) ELSE TRUE
      /\ IF IsPreflight(cfg, req) /\ PreflightGranted(cfg, req, routable) THEN Bump(7) ELSE TRUE
 
+\* stacked filters: what only the second (restrictive) filter grants needs an origin IT allows
+CheckStack(line, ev) ==
+  LET second == [domains |-> ev.second, pred |-> "none", methods |-> <<>>, headers |-> <<>>, expose |-> <<"X-B">>,
+                 cookies |-> TRUE, maxAge |-> 0]
+  IN /\ Bump(2)
+     /\ Chk(line, ~ev.panic, "C08.total", <<>>)
+     /\ Chk(line, (ev.cred \/ ev.xb) => OriginAllowed(second, ev.origin), "C08.cred", <<"second filter", ev.origin>>)
+
 Init == l = 1 /\ cfg = <<>>
 Next == /\ l <= Len(Trace) /\ l' = l + 1
         /\ cfg' = IF Trace[l].e = "cfg" THEN Trace[l].cfg ELSE cfg
         /\ Trace[l].e = "creq" => CheckReq(l, Trace[l])
+        /\ Trace[l].e = "cstack" => CheckStack(l, Trace[l])
         /\ TLCSet(1, l)
 Spec == Init /\ [][Next]_<<l, cfg>>
 ASSUME \A k \in 1..7 : TLCSet(k, 0)
